@@ -236,6 +236,8 @@ func (k *Keys) ReadKey() (key rune, isAbort bool) {
 	switch {
 	case len(k.buf) > 0:
 		// Keys already read (pasted or typed ahead) come first.
+		k.buf = k.completeRune(k.buf)
+
 		var size int
 		key, size = utf8.DecodeRune(k.buf)
 		k.buf = k.buf[size:]
@@ -258,6 +260,8 @@ func (k *Keys) ReadKey() (key rune, isAbort bool) {
 			return key, true
 		}
 
+		buf = k.completeRune(buf)
+
 		// Only the first character is the argument: if more
 		// keys were read with it, they are ordinary input.
 		var size int
@@ -271,6 +275,21 @@ func (k *Keys) ReadKey() (key rune, isAbort bool) {
 	k.matched = append(k.matched, key)
 
 	return key, key == inputrc.Esc
+}
+
+// completeRune reads more input for as long as the given keys only hold the first bytes
+// of a multi-byte character (a read can end in the middle of one), and returns them all.
+func (k *Keys) completeRune(buf []byte) []byte {
+	for len(buf) > 0 && !utf8.FullRune(buf) {
+		more, _ := k.readInputFiltered()
+		if len(more) == 0 {
+			break
+		}
+
+		buf = append(buf, more...)
+	}
+
+	return buf
 }
 
 // Pop removes the first byte in the key stack (first read) and returns it.
